@@ -85,8 +85,26 @@ Theorem C04_reward_credit_within_allocation_refuted :
 Proof. exists 3, [HALF; HALF]. split; vm_compute; reflexivity. Qed.
 Print Assumptions C04_reward_credit_within_allocation_refuted.
 
-(* share tokens.  FULL STATEMENT: everything the outstanding share tokens can redeem under the
-   pool's own rule is staked.  REFUTED after a slash (100 shares redeem 200, 50 are staked) ... *)
+(* share tokens, REPAIRED redemption (GetRedeemPoolCoins, ceil(amount*shares/stake); the translator reads
+   from the source which rule the tree uses).  FULL STRENGTH, any state, slashed or not: however the share
+   supply is split into holdings and whatever each holder redeems within his holding, the redemptions
+   together never exceed the stake; and a redemption never raises the shares-per-stake ratio. *)
+Theorem C04_shares_redeemable : forall s, shares_redeemable_pro_rata s.
+Proof. exact shares_redeemable_pro_rata_all. Qed.
+Print Assumptions C04_shares_redeemable.
+Theorem C04_redemption_never_dilutes : forall S K x, 0 < K -> (S - redeem_burn S K x) * K <= S * (K - x).
+Proof. exact redeem_no_dilution. Qed.
+Print Assumptions C04_redemption_never_dilutes.
+(* the state that refutes the old rule below (100 shares, 50 staked after the slash): under the repaired rule
+   100 shares redeem exactly the 50 that are staked *)
+Example C04_shares_redeemable_after_slash :
+  let s := run h_slash (genesis g0) in
+  redeem_burn (supply s (share 1 0)) (book s MS K_STAKED 1 0) 50 = 100 /\
+  redeem_burn (supply s (share 1 0)) (book s MS K_STAKED 1 0) 51 = 102.
+Proof. vm_compute. split; reflexivity. Qed.
+
+(* OLD redemption rule (GetPoolCoins, amount*(1-slashed)).  FULL STATEMENT: everything the outstanding share
+   tokens can redeem under that rule is staked.  REFUTED after a slash (100 shares redeem 200, 50 are staked) ... *)
 Theorem C04_shares_redeemable_refuted :
   exists g h, good_genesis g /\ all_solvent (run h (genesis g)) /\ ~ shares_redeemable (run h (genesis g)).
 Proof.
